@@ -176,12 +176,12 @@ th_ptr -> 4080-4087:
     th_ptr += size_in_bytes - (sizeof(void*) * 2);
     uintptr_t *blk_size = (uintptr_t*) (th_ptr + sizeof(void*));
     *blk_size = size_in_bytes;
-    MYTH_VERIF_EV6("StackAlloc", env->rank, VS(th_ptr), VA(th_ptr + sizeof(void*) * 2 - size_in_bytes), VA(th_ptr + sizeof(void*) * 2), 2, MYTH_MALLOC_SIZE_TO_INDEX(size_in_bytes));
+    MYTH_VERIF_EV6("StackAlloc", env->rank, VSA(th_ptr + sizeof(void*) * 2 - size_in_bytes, th_ptr), VA(th_ptr + sizeof(void*) * 2 - size_in_bytes), VA(th_ptr + sizeof(void*) * 2), 2, MYTH_MALLOC_SIZE_TO_INDEX(size_in_bytes));
     return th_ptr;
   }
   void * ret = myth_freelist_pop(&env->freelist_stack);
   if (ret) {
-    MYTH_VERIF_EV6("StackAlloc", env->rank, VS(ret), VA((char*)ret + sizeof(void*) * 2 - g_attr.stacksize), VA((char*)ret + sizeof(void*) * 2), 0, 0);
+    MYTH_VERIF_EV6("StackAlloc", env->rank, VSA((char*)ret + sizeof(void*) * 2 - g_attr.stacksize, ret), VA((char*)ret + sizeof(void*) * 2 - g_attr.stacksize), VA((char*)ret + sizeof(void*) * 2), 0, 0);
     return ret;
   } else {
     //Allocate
@@ -233,7 +233,7 @@ th_ptr -> 4080-4087:
     env->prof_data.saddlist_cycles += t3 - t2;
 #endif /* MYTH_ALLOC_PROF */
   }
-  MYTH_VERIF_EV6("StackAlloc", env->rank, VS(ret), VA((char*)ret + sizeof(void*) * 2 - g_attr.stacksize), VA((char*)ret + sizeof(void*) * 2), 1, 0);
+  MYTH_VERIF_EV6("StackAlloc", env->rank, VSA((char*)ret + sizeof(void*) * 2 - g_attr.stacksize, ret), VA((char*)ret + sizeof(void*) * 2 - g_attr.stacksize), VA((char*)ret + sizeof(void*) * 2), 1, 0);
   return ret;
 #else
   return NULL;
